@@ -153,7 +153,7 @@ class CP1Disk(CP1Object):
         center, radius = self.circle_parameters()
         center_norm = np.linalg.norm(center, axis=-1)
 
-        res = np.arctan(center_norm + radius) - np.arctan(center_norm - radius)
+        res = np.array(np.arctan(center_norm + radius) - np.arctan(center_norm - radius))
         inverted = ~self.center_inside()
         res[inverted] = np.pi - res[inverted]
 
